@@ -49,6 +49,11 @@ CLAIMS = {
    note='Trusted: simulated Lock/Event/Queue/pipe semantics; preemption at synchronisation/IO operations and at source lines of listed functions; virtual time. TLC instance: one channel, K<=3 items, <=3 receivers. Oracle = property automaton spec/GatewayAbs.tla evaluated by TLC on every distinct trace.',
    technique='TLA+ model of channel send/dispatch/receive/close/setcallback model-checked with TLC; real Gateway+WorkerGateway pair under deterministic schedule exploration (sync-point and line-level preemption); every trace validated by TLC against the TLA+ property automaton',
    ref="5/C18"),
+ "C04": dict(
+   text='The worker->initiator byte stream of each program is cut after every possible number of bytes (0..L: inside headers, inside payloads, between frames), either breaking the connection or killing the peer, over the real Popen2IO and SocketIO under explored schedules and read chunkings; the survivor has blocked receivers, waitclose callers and a callback with endmarker. spec/GatewayAbs.tla (TLC) demands: delivered items = the frames that arrived completely, in order; then EOFError; endmarker exactly once; no thread blocked forever; after join() send/newchannel/remote_exec raise OSError and hasreceiver() is false. spec/Gateway.tla gives the exhaustive interleaving argument for the close path.',
+   note="Trusted: simulated Lock/Event/Queue/pipe semantics; preemption at synchronisation/IO operations and at source lines of listed functions; virtual time. Oracle = property automaton spec/GatewayAbs.tla evaluated by TLC on every distinct trace. 'From then on' = from the return of join().",
+   technique='TLA+ model of channel dispatch/close model-checked with TLC; real gateway pair in a deterministic simulator with the connection cut at every byte offset (two failure modes, two IO classes) x schedules; every trace validated by TLC against the TLA+ property automaton',
+   ref="5/C04"),
 }
 
 NOT_YET = {}
